@@ -464,6 +464,14 @@ def split_merge(ctx):
 
 
 
+def _borrowable(shape, tok):
+    """can a borrow of `tok` be accepted at all on this shape (collateral with a non-zero LTV present, token borrowable)?"""
+    from ..models.aave import risk_table
+
+    risk = risk_table()
+    return risk[tok]["borrow"] and any(md == "C" and risk[n]["coll"] and risk[n]["ltv"] > 0 for n, (md, _) in shape.items())
+
+
 def scenarios(tier):
     e = ("AaveV3Market.supply", "withdraw", "borrow", "repay", "set_market_status", "get_supply", "get_borrow")
     out = []
@@ -488,7 +496,7 @@ def scenarios(tier):
                 if op in ("repay",) and not shape[tok][1]:
                     continue
                 nm = f"{sn}/{op}/{tok}{'/' + tok2 if tok2 else ''}"
-                out.append(Scenario("step/" + nm, one_step, params=dict(shape=shape, op=op, tok=tok, tok2=tok2), shadows=SHADOWS, entry=e, max_paths=600, witness_cap=8, canary=None if (op == "repay_coll" and shape[tok2][0] != "C") else "CANARY balances ignore the index"))
+                out.append(Scenario("step/" + nm, one_step, params=dict(shape=shape, op=op, tok=tok, tok2=tok2), shadows=SHADOWS, entry=e, max_paths=600, witness_cap=8, canary=None if ((op == "repay_coll" and shape[tok2][0] != "C") or (op == "borrow" and not _borrowable(shape, tok))) else "CANARY balances ignore the index"))
                 if tier != "quick" or sn in ("A", "B"):
                     out.append(Scenario("split/" + nm, split_merge, params=dict(shape=shape, op=op, tok=tok, tok2=tok2), shadows=SHADOWS, entry=e, max_paths=600, witness_cap=8))
     return out
